@@ -110,6 +110,12 @@ func c31Gen(rng *core.Rng, tier string) *harness.Plan {
 			p.Params["exact_ppm"] = int64(300000 + rng.IntN(700000))
 		}
 	}
+	if tier != "thorough" && p.Params["storage"] == 0 {
+		// quick runs of the signature-heavy mode also run the (cheap) storage mode first, so that every
+		// quick tier covers both ways of filling a batch
+		p.Params["also_storage"] = 1
+		p.Params["storage_txs"] = int64(9 + rng.IntN(5))
+	}
 	if tier != "thorough" {
 		// quick: stop once the proposer's batch frames have been measured (the
 		// other nodes would spend minutes verifying half a million signatures)
@@ -121,6 +127,27 @@ func c31Gen(rng *core.Rng, tier string) *harness.Plan {
 }
 
 func c31Exec(p *harness.Plan) *harness.Outcome {
+	if p.P("also_storage", 0) == 1 {
+		sub := p.Clone()
+		delete(sub.Params, "also_storage")
+		sub.Params["storage"], sub.Params["txs"], sub.Params["exact_ppm"] = 1, p.P("storage_txs", 10), 1000000
+		first := c31Exec(sub)
+		if first.Violation != nil || first.ToolError != "" {
+			return first
+		}
+		main := p.Clone()
+		delete(main.Params, "also_storage")
+		out := c31Exec(main)
+		out.Evals += first.Evals
+		for k, v := range first.Probes {
+			out.Probes[k] += v
+		}
+		for k, v := range first.Faults {
+			out.Faults[k] += v
+		}
+		out.SimSeconds += first.SimSeconds
+		return out
+	}
 	r, err := newClusterRun("C31", p)
 	if err != nil {
 		o := harness.NewOutcome()
